@@ -42,7 +42,7 @@ ASSUMPTIONS = [
 ]
 
 SLOTS = W.TARGET_ORDER + ["pipeline", "pipeline", "pipeline", "qurm", "gcrm"]  # F25/F26 anchors get a double share
-N = {"quick": 1500, "thorough": 16000}
+N = {"quick": 1500, "thorough": 48000}
 # pipeline requests: ordered pairs and triples over *all* compilation kinds with a registered single-agent compiler
 KINDS = W.ALL_PIPELINE_KINDS
 PAIRS = [(a, b) for a in KINDS for b in KINDS if a != b]
